@@ -64,8 +64,8 @@ def direct (name : String) (a b : Value) : Option (Res Value) :=
   | "le" => some (tryCmp .le a b)
   | "and" => some (tryAnd a b)
   | "or" => some (tryOr a (.ok b))
-  | "eq" => some (.ok (.bool (eqLossy a b)))
-  | "ne" => some (.ok (.bool (!eqLossy a b)))
+  | "eq" => some (.ok (.bool (eqImpl a b)))
+  | "ne" => some (.ok (.bool (!eqImpl a b)))
   | _ => none
 
 /-- the operator as `Op::resolve` (or the `mod` function) evaluates it on resolved operands -/
